@@ -182,6 +182,9 @@ func genScenario(rnd *rand.Rand, maxRows int) *Scenario {
 		s.dom["c"] = append(s.dom["c"], vTrue)
 	}
 	for _, sh := range shapes {
+		if sh.name == wideShape.name {
+			continue
+		}
 		t := &Table{Name: sh.name, Cols: sh.cols}
 		n := rnd.Intn(maxRows + 1)
 		if rnd.Intn(8) == 0 || cornerEmptyKey && rnd.Intn(2) == 0 {
@@ -223,13 +226,66 @@ func genScenario(rnd *rand.Rand, maxRows int) *Scenario {
 		s.kinds[sh.name] = km
 		s.Tables = append(s.Tables, t)
 	}
+	if cornerWide {
+		s.addWide(rnd)
+	}
 	return s
+}
+
+// wideShape: the table of the "wide" profile: five columns, so that keys and indexes of four
+// and five columns exist (composite index ranges over more than three columns); shares columns
+// with t1 (a, b), t2 (d, e) and t4 (d, f). Its rows are drawn from two or three values per
+// column, so that many rows agree on the leading columns of any index and differ later.
+var wideShape = struct {
+	name string
+	cols []string
+}{"t5", []string{"a", "b", "d", "e", "f"}}
+
+func (s *Scenario) addWide(rnd *rand.Rand) {
+	sh := wideShape
+	t := &Table{Name: sh.name, Cols: sh.cols}
+	sub := make([][]Val, len(sh.cols))
+	for i, c := range sh.cols {
+		d := s.dom[c]
+		p := rnd.Perm(len(d))
+		n := 2 + rnd.Intn(2)
+		if i == rnd.Intn(len(sh.cols)) {
+			n = len(d)
+		}
+		for _, j := range p[:min(n, len(d))] {
+			sub[i] = append(sub[i], d[j])
+		}
+	}
+	n := 6 + rnd.Intn(9)
+	seen := map[string]bool{}
+	for tries := 0; len(t.Rows) < n && tries < 200; tries++ {
+		row := make([]Val, len(sh.cols))
+		for i := range sh.cols {
+			row[i] = sub[i][rnd.Intn(len(sub[i]))]
+		}
+		if k := fmt.Sprint(row); !seen[k] {
+			seen[k] = true
+			t.Rows = append(t.Rows, row)
+		}
+	}
+	km := map[string]Kind{}
+	for _, c := range sh.cols {
+		var k Kind
+		for _, v := range s.dom[c] {
+			k |= kindOf(v)
+		}
+		km[c] = k
+	}
+	s.kinds[sh.name] = km
+	s.Tables = append(s.Tables, t)
 }
 
 // Corner profiles (off in the core profile, see checks/C22.py):
 //   cornerEmptyKey: tables with at most one row may be declared with the empty key "key()"
 //   cornerWhole:    the whole-row min/max summarize may appear below other operators
-var cornerEmptyKey, cornerWhole bool
+//   cornerWide:     an additional five column table t5 and mostly wheres that constrain the
+//                   columns of a composite index one by one (Gen.spanWhere)
+var cornerEmptyKey, cornerWhole, cornerWide bool
 
 // candidate keys: minimal column subsets that are unique in the data
 func (t *Table) candidateKeys() [][]string {
@@ -559,7 +615,7 @@ func (g *Gen) tableQ(name string) *Q {
 }
 
 func (g *Gen) anyTable() *Q {
-	return g.tableQ(shapes[g.rnd.Intn(len(shapes))].name)
+	return g.tableQ(g.sc.Tables[g.rnd.Intn(len(g.sc.Tables))].Name)
 }
 
 func copyKinds(m map[string]Kind) map[string]Kind {
@@ -1409,8 +1465,148 @@ func (g *Gen) fixedOrder() *Q {
 	return &Q{Op: "sort", Src: q, Rev: g.rnd.Intn(3) == 0, Cols: []string{c2}, cols: q.cols, kinds: q.kinds}
 }
 
+// spanWhere: "<table> where c1 is v1 and c2 in (v2, w2) and c3 is v3 and c4 in (...) ..." where
+// (c1, c2, ...) is an index every configuration has (all or all but one of the table's columns in
+// some order): each index column in turn is constrained to a point, to several points (in),
+// to everything but a point (isnt), to a range, or left open - the where turns this into the
+// cross product of the per-column spans (point lookups and ranges on the composite index). The
+// values come from rows of the table, so that the ranges are not empty. On top sometimes another
+// where, a sort on index columns, or a join / semijoin / intersect that passes its own Select
+// or Lookup down to the where.
+func (g *Gen) spanWhere() *Q {
+	t := g.sc.Tables[len(g.sc.Tables)-1] // (wide profile: t5)
+	if !cornerWide || g.rnd.Intn(5) == 0 || len(t.Rows) == 0 {
+		for try := 0; try < 8; try++ {
+			t = g.sc.Tables[g.rnd.Intn(len(g.sc.Tables))]
+			if len(t.Rows) >= 3 {
+				break
+			}
+		}
+	}
+	if len(t.Rows) == 0 {
+		return g.gen(2)
+	}
+	if g.wantOf == nil {
+		g.wantOf = map[string][]string{}
+	}
+	ix := g.wantOf[t.Name]
+	if ix == nil {
+		ix = shuffled(g.rnd, t.Cols)
+		if len(ix) > 2 && g.rnd.Intn(3) == 0 {
+			ix = ix[:len(ix)-1]
+		}
+		g.wantOf[t.Name] = ix
+	}
+	src := g.tableQ(t.Name)
+	src.want = map[string][]string{t.Name: ix}
+	at := func(c string) int {
+		for i, tc := range t.Cols {
+			if tc == c {
+				return i
+			}
+		}
+		panic("no column " + c)
+	}
+	r0 := t.Rows[g.rnd.Intn(len(t.Rows))]
+	col := func(c string) *Ex { return &Ex{K: "col", C: c} }
+	var terms []*Ex
+	for _, c := range ix {
+		i := at(c)
+		k := src.kinds[c]
+		some := func(n int) []Val { // r0's value and values of other rows / other constants
+			vs := []Val{r0[i]}
+			for tries := 0; len(vs) < n && tries < 20; tries++ {
+				v := t.Rows[g.rnd.Intn(len(t.Rows))][i]
+				if tries > 8 || g.rnd.Intn(6) == 0 {
+					v = g.constFor(k)
+				}
+				dup := false
+				for _, x := range vs {
+					dup = dup || x == v
+				}
+				if !dup {
+					vs = append(vs, v)
+				}
+			}
+			g.rnd.Shuffle(len(vs), func(a, b int) { vs[a], vs[b] = vs[b], vs[a] })
+			return vs
+		}
+		switch r := g.rnd.Intn(100); {
+		case r < 40:
+			terms = append(terms, &Ex{K: "in", A: col(c), Vs: some(2 + g.rnd.Intn(2))})
+		case r < 75:
+			terms = append(terms, &Ex{K: "cmp", O: "is", A: col(c), B: &Ex{K: "const", V: r0[i]}})
+		case r < 83:
+			terms = append(terms, &Ex{K: "cmp", O: "isnt", A: col(c), B: &Ex{K: "const", V: some(2)[0]}})
+		case r < 93:
+			vs := some(2)
+			lo, hi := vs[0], vs[len(vs)-1]
+			if hi.less(lo) {
+				lo, hi = hi, lo
+			}
+			if ambiguous(k, kindOf(lo)) || ambiguous(k, kindOf(hi)) {
+				terms = append(terms, &Ex{K: "in", A: col(c), Vs: vs})
+				break
+			}
+			if g.rnd.Intn(2) == 0 {
+				terms = append(terms, &Ex{K: "cmp", O: []string{"gte", "gt"}[g.rnd.Intn(2)], A: col(c), B: &Ex{K: "const", V: lo}})
+			}
+			if g.rnd.Intn(3) > 0 {
+				terms = append(terms, &Ex{K: "cmp", O: []string{"lte", "lt"}[g.rnd.Intn(2)], A: col(c), B: &Ex{K: "const", V: hi}})
+			}
+		}
+	}
+	if len(terms) == 0 {
+		terms = append(terms, &Ex{K: "cmp", O: "is", A: col(ix[0]), B: &Ex{K: "const", V: r0[at(ix[0])]}})
+	}
+	if g.rnd.Intn(2) == 0 {
+		g.rnd.Shuffle(len(terms), func(a, b int) { terms[a], terms[b] = terms[b], terms[a] })
+	}
+	e := terms[0]
+	if len(terms) > 1 {
+		e = &Ex{K: "and", Es: terms}
+	}
+	var q *Q = &Q{Op: "where", Src: src, E: e, cols: src.cols, kinds: src.kinds}
+	switch r := g.rnd.Intn(12); {
+	case r < 2:
+		q = g.where(q)
+	case r < 4:
+		// the other source's Select / Lookup (on the common columns) arrives at the where
+		l := g.anyTable()
+		for try := 0; try < 5 && l.Name == t.Name; try++ {
+			l = g.anyTable()
+		}
+		op := []string{"join", "join", "leftjoin", "semijoin", "intersect"}[g.rnd.Intn(5)]
+		if op == "intersect" {
+			q = g.binary(op, l, g.makeSame(l, q))
+		} else {
+			q = g.binary(op, l, g.makeCommon(l, q))
+		}
+	case r < 5:
+		q = g.project(q, g.subset(q.cols, 1, len(q.cols)))
+	case r < 6:
+		q = g.summarize(q)
+	}
+	if g.rnd.Intn(4) == 0 {
+		n := 1 + g.rnd.Intn(len(ix))
+		var by []string
+		for _, c := range ix[g.rnd.Intn(len(ix)):] {
+			if contains(q.cols, c) && len(by) < n {
+				by = append(by, c)
+			}
+		}
+		if len(by) > 0 {
+			q = &Q{Op: "sort", Src: q, Rev: g.rnd.Intn(3) == 0, Cols: by, cols: q.cols, kinds: q.kinds}
+		}
+	}
+	return q
+}
+
 // genTop: a query, possibly with a sort on top
 func (g *Gen) genTop(d int) *Q {
+	if cornerWide && g.rnd.Intn(3) > 0 {
+		return g.spanWhere()
+	}
 	if g.rnd.Intn(30) == 0 {
 		return g.fixedOrder()
 	}
